@@ -1118,7 +1118,14 @@ where
     }
 
     fn read_u32_to_vec(&mut self, length: u32, vec: &mut Vec<u32>) -> Result<()> {
-        self.read_u32((length >> 2) as usize, vec)
+        self.read_u32((length >> 2) as usize, vec)?;
+
+        // a length which is not a multiple of 4
+        // leaves up to 3 more bytes of the value to consume
+        let rem = (length & 3) as usize;
+        self.skip_remainder(rem)?;
+        self.position += rem as u64;
+        Ok(())
     }
 
     fn read_to<W>(&mut self, length: u32, mut out: W) -> Result<()>
